@@ -712,7 +712,7 @@ ALWAYS[_hmac.digest] = _m_hmac_digest
 
 _BUILTIN_METHOD = type(b"".join)
 _LAZY_ITERABLES = (type(i for i in ()), map, zip, filter, type(iter([])), type(iter(())), type(reversed([])), enumerate)
-_CONSUMERS = frozenset([bytes, bytearray, sum, min, max, any, all, sorted, tuple, list, set, frozenset])
+_CONSUMERS = frozenset([bytes, bytearray, sum, min, max, sorted, tuple, list, set, frozenset])   # not any/all: their short-circuit keeps path counts down
 STUBS: dict = {}  # harness-installed: callable -> replacement (hash / EC / randomness stubs)
 
 _OK_BUILTINS = (isinstance, len, repr, print, id, type, iter, next, enumerate, zip, hash, getattr, setattr,
@@ -801,6 +801,23 @@ def call(f, *args, **kwargs):
     return f(*args, **kwargs)
 
 
+def ifexp(c, fa, fb):
+    """`a if c else b` with a symbolic condition: an if-then-else term when both arms are values that can be merged, a fork otherwise."""
+    tc = type(c)
+    if tc is not SymBool and tc is not SymInt:
+        return fa() if c else fb()
+    cond = c if tc is SymBool else (c != 0)
+    if type(cond) is not SymBool:
+        return fa() if cond else fb()
+    try:
+        a = fa()
+        b = fb()
+    except (Exception, SxUnsupported):
+        # an arm that cannot be evaluated on this path (guarded division, missing key, ...): decide the condition first, as Python would
+        return fa() if bool(cond) else fb()
+    return ite(cond, a, b)      # falls back to a fork when the arms cannot be merged into one term
+
+
 def enter(name):
     executed.add(name)
 
@@ -842,7 +859,7 @@ class Rewriter(ast.NodeTransformer):
     def visit_Call(self, node):
         self.generic_visit(node)
         # super() must stay a direct call (zero-arg form needs __class__ cell)
-        if isinstance(node.func, ast.Name) and node.func.id in ("super", "__sx_getitem__", "__sx_call__", "__sx_contains__", "locals", "globals", "vars"):
+        if isinstance(node.func, ast.Name) and node.func.id in ("super", "__sx_getitem__", "__sx_call__", "__sx_contains__", "__sx_ifexp__", "locals", "globals", "vars"):
             return node
         return ast.copy_location(ast.Call(self._name("__sx_call__"), [node.func, *node.args], node.keywords), node)
 
@@ -854,6 +871,14 @@ class Rewriter(ast.NodeTransformer):
                 c = ast.Call(self._name("__sx_not__"), [c], [])
             return ast.copy_location(c, node)
         return node
+
+    def visit_IfExp(self, node):
+        self.generic_visit(node)
+        for sub in ast.walk(node):
+            if isinstance(sub, (ast.Yield, ast.YieldFrom, ast.Await, ast.NamedExpr)):
+                return node
+        lam = lambda e: ast.Lambda(args=ast.arguments(posonlyargs=[], args=[], kwonlyargs=[], kw_defaults=[], defaults=[]), body=e)  # noqa: E731
+        return ast.copy_location(ast.Call(self._name("__sx_ifexp__"), [node.test, lam(node.body), lam(node.orelse)], []), node)
 
     def visit_AnnAssign(self, node):
         # do not rewrite annotations
@@ -893,6 +918,7 @@ class _Loader(importlib.machinery.SourceFileLoader):
         module.__dict__["__sx_contains__"] = contains
         module.__dict__["__sx_not__"] = snot
         module.__dict__["__sx_enter__"] = enter
+        module.__dict__["__sx_ifexp__"] = ifexp
         super().exec_module(module)
 
 
